@@ -85,7 +85,12 @@ TAdd ==
          accept == IF dontcare THEN E.res = "ok" ELSE legal
          new == PartTabs(E.parts, NextIndex(tabs), nextTab)
          plain == tabs \o new
-         expRes == IF stale THEN "lock" ELSE IF ~accept THEN "rejected" ELSE "ok"
+         ownRes == IF stale THEN "lock" ELSE IF ~accept THEN "rejected" ELSE "ok"
+         \* a transaction executed by the OTHER implementation (C15): the specification follows its outcome, so that
+         \* the state both sides agree on is the state the final view is compared with; a disagreement about
+         \* acceptance is recorded separately
+         foreign == "foreign" \in DOMAIN E
+         expRes == IF foreign THEN (IF E.res = "ok" THEN "ok" ELSE "rejected") ELSE ownRes
          ranges == IF E.auto /\ expRes = "ok" /\ E.dirshape # Shape(plain) THEN AutoRanges(plain, E.dirshape) ELSE {}
          after == IF expRes # "ok" THEN tabs
                   ELSE IF ranges # {} THEN (LET ij == CHOOSE ij \in ranges : TRUE IN
@@ -95,7 +100,8 @@ TAdd ==
      /\ tabs' = after
      /\ nextTab' = nextTab + Len(new) + 1
      /\ loaded' = [loaded EXCEPT ![h] = IF expRes = "ok" \/ (expRes = "lock" /\ ~E.multi) THEN after ELSE @]
-     /\ fails' = Cmp(E.res, expRes, IF stale THEN "C09_StaleAddMustFail" ELSE IF ~accept \/ E.res = "rejected" THEN "C12_AcceptIffLegal" ELSE "C04_AddResult")
+     /\ fails' = Cmp(E.res, IF foreign THEN E.res ELSE expRes, IF stale THEN "C09_StaleAddMustFail" ELSE IF ~accept \/ E.res = "rejected" THEN "C12_AcceptIffLegal" ELSE "C04_AddResult")
+          \cup (IF foreign THEN Cmp(E.res, ownRes, "C15_AcceptAgree") ELSE {})
           \cup Cmp(E.dirshape, Shape(after), IF expRes = "ok" THEN (IF E.auto THEN "C17_AutoCompactRange" ELSE "C04_StackAfterAdd") ELSE "C09_DirUnchanged")
           \cup Fail(E.res # "ok" \/ ~E.namecheck \/ ~Conflict(LiveNames(after)), "C12_NoConflict")
   /\ Step
